@@ -124,6 +124,22 @@ def denote (d : Dict) : Except Err Loaded :=
   | .error e, _ => .error e
   | _, .error e => .error e
 
+/-- the value type of the FIX data types (FIX 4.2 – 5.0SP2 specifications, "Data types"): int-based, float-based, boolean,
+    and char/String-based.  One entry follows the library rather than the specification and is marked. -/
+def fixKind : List (Str × PyKind) := [
+  (lit "INT", .int), (lit "LENGTH", .int), (lit "SEQNUM", .int), (lit "NUMINGROUP", .int), (lit "DAYOFMONTH", .int), (lit "LONG", .int),
+  (lit "FLOAT", .float), (lit "QTY", .float), (lit "PRICE", .float), (lit "PRICEOFFSET", .float), (lit "AMT", .float),
+  (lit "PERCENTAGE", .float),
+  (lit "BOOLEAN", .bool),
+  (lit "CHAR", .str), (lit "STRING", .str), (lit "MULTIPLEVALUESTRING", .str), (lit "MULTIPLECHARVALUE", .str),
+  (lit "MULTIPLESTRINGVALUE", .str), (lit "FIXSTRING", .str), (lit "COUNTRY", .str), (lit "CURRENCY", .str), (lit "EXCHANGE", .str),
+  (lit "UTCTIMESTAMP", .str), (lit "UTCTIMEONLY", .str), (lit "UTCDATE", .str), (lit "LOCALMKTDATE", .str), (lit "TZTIMEONLY", .str),
+  (lit "DATA", .str),
+  (lit "MONTHYEAR", .int)]    -- FIX: String (YYYYMM, YYYYMMDD, YYYYMMwN); the library carries it as an int
+
+/-- every type name of the table has the documented value type -/
+def tableOk (t : TypeTable) : Bool := t.all fun kv => aget kv.1 fixKind == some kv.2.kind
+
 /-! ## the guard: valid dictionaries -/
 
 def isFieldsSec : Section → Bool
